@@ -215,6 +215,41 @@ func checkC17(c *Check) {
 	c.Ob("R4", "reader slices the serial at the writer's boundary", rd.Pos(), sliceAt == wmin, "serial read from offset "+itoa(sliceAt)+", written at "+itoa(wmin))
 	c.keyLayoutsRule("R4", []string{kpkg}, 1, 0)
 	c.serialBaseRule("R4")
+	// lookup by (owner, serial) answers "not found" only on a store miss: whatever CreateCertificate accepted and
+	// stored under certificateKey(id) is found again (no extra rejection of ids in the reader)
+	{
+		g := l.Func(kpkg, "keeper", "GetCertificateByID")
+		c.Analysed(fnName(g))
+		okMiss, nneg := true, 0
+		why := ""
+		for _, b := range g.Blocks {
+			r, isR := b.Instrs[len(b.Instrs)-1].(*ssa.Return)
+			if !isR || len(r.Results) != 2 {
+				continue
+			}
+			for _, lf := range retLeaves(r.Results[1], b, map[ssa.Value]bool{}) {
+				if isConstBool(lf.val, true) {
+					continue
+				}
+				nneg++
+				miss := false
+				extra := ""
+				for _, a := range factsAt(lf.blk) {
+					x := Sym(a.X)
+					if (a.Op == "eq" && isNilConst(a.Y) && strings.Contains(x, "KVStore.Get(") && strings.Contains(x, "certificateKey(p:id)")) || (a.Op == "false" && strings.Contains(x, "KVStore.Has(") && strings.Contains(x, "certificateKey(p:id)")) {
+						miss = true
+					} else {
+						extra = a.Op + " " + short(x)
+					}
+				}
+				if !miss {
+					okMiss = false
+					why = "a 'not found' answer is given without consulting the store (condition: " + extra + "): a certificate registered under that id cannot be found by owner and serial"
+				}
+			}
+		}
+		c.Ob("R4", "lookup by owner and serial reports 'not found' only on a store miss under certificateKey(id)", g.Pos(), okMiss && nneg > 0, why)
+	}
 
 	// ---- R5 panics
 	np := 0
